@@ -25,10 +25,22 @@ type ChildResult struct {
 
 // RunChild re-executes this binary with VH_CHILD=<name> and the JSON argument on stdin.
 func RunChild(name string, arg interface{}, timeout time.Duration) ChildResult {
+	return runChild(name, arg, timeout, false)
+}
+
+// RunChildUTS runs the child in a UTS namespace of its own (unshare -u), so that it can give itself a host name.
+func RunChildUTS(name string, arg interface{}, timeout time.Duration) ChildResult {
+	return runChild(name, arg, timeout, true)
+}
+
+func runChild(name string, arg interface{}, timeout time.Duration, uts bool) ChildResult {
 	b, _ := json.Marshal(arg)
 	ctx, cancel := context.WithTimeout(context.Background(), timeout)
 	defer cancel()
 	cmd := exec.CommandContext(ctx, os.Args[0])
+	if uts {
+		cmd = exec.CommandContext(ctx, "unshare", "-u", os.Args[0])
+	}
 	cmd.Env = append(os.Environ(), "VH_CHILD="+name)
 	cmd.Stdin = bytes.NewReader(b)
 	var so, se bytes.Buffer
